@@ -306,7 +306,18 @@ def run(item):
     xa, xb = list(inst.nlp.x0()), list(B.nlp.x0())
     if len(xa) != len(xb) or not all(close(float(a), float(b)) for a, b in zip(xa, xb)):
         V('x0-differs', 'x0', 'starting points of the parametric and the inlined problem differ')
-    r = result(inst, ch, {'violations': viol,
+    twins_ok = twins_bad = 0
+    if item.get('twin', True):
+        sW = copy.deepcopy(spec)
+        [p for p in sW.params if p.name == 'a'][0].value = Fr(7, 2)      # other value written in
+        W = Inst(inline(sW, globs), cfg, seed=item.get('seed', 0), like=inst, bind=bindB)
+        ch2 = Checker(inst, timeout_ms=5000)
+        dW, _ = compare_nlps(ch2, A, W, 'parametric', 'wrong-value')
+        if dW:
+            twins_ok += 1
+        else:
+            twins_bad += 1
+    r = result(inst, ch, {'violations': viol, 'twins_ok': twins_ok, 'twins_bad': twins_bad,
                           'shape': '%s|%s' % (cfg.tag(), spec.t0[0] + '/' + spec.T[0]),
                           'sample': {'cfg': cfg.tag(), 'horizon': [spec.t0[0], spec.T[0]], 'params': [(p.name, p.grid, p.rows, p.cols) for p in spec.params],
                                      'rows': inst.nlp.ng, 'np': inst.nlp.np, 'relational_pairs': npairs}})
